@@ -42,6 +42,10 @@ pub mod squfof;
 pub mod classgroup;
 pub mod relationcls;
 
+// Verification hooks, only with --cfg yamaquasi_verif
+#[cfg(yamaquasi_verif)]
+pub mod verif;
+
 // We need to perform modular multiplication modulo the input number.
 pub type Int = arith::I1024;
 pub type Uint = arith::U1024;
